@@ -170,7 +170,9 @@ func (pd *perRawBitData) appendBitString(bytes []byte, bitsLength uint64, extens
 	}
 
 	if ub > 65535 {
+		// X.691 11.9.3.5: with an upper bound of 64K or more the length itself is encoded, not length - lb
 		sizeRange = -1
+		lb = 0
 	}
 	sizes := (bitsLength + 7) >> 3
 	shift := (8 - bitsLength&0x7)
@@ -265,7 +267,9 @@ func (pd *perRawBitData) appendOctetString(bytes []byte, extensive bool, lowerBo
 	}
 
 	if ub > 65535 {
+		// X.691 11.9.3.5: with an upper bound of 64K or more the length itself is encoded, not length - lb
 		sizeRange = -1
+		lb = 0
 	}
 
 	if sizeRange == 1 {
